@@ -1439,3 +1439,171 @@ func c18contentAgrees(c *an.Ctx) {
 		c.OK("C18.once", key, f.Pos(), "a yield without content leaves Runtime.content as Runtime.YieldBlock leaves it")
 	}
 }
+
+// c12hashableKey (C12.panicval hashable-key): looking a value up in a map hashes it, and hashing a value whose dynamic
+// type is not comparable (a slice, a map, a function behind an interface{} key type) is a runtime panic that Execute
+// re-panics.  Every (reflect.Value).MapIndex / SetMapIndex of the evaluator is therefore handed a key that comes out
+// of the map itself (MapKeys, MapRange), was converted to a string-kinded type, or is known to be of a comparable type
+// (Type().Comparable() tested on that variable before; a later Convert of the same variable keeps what was found).
+func c12hashableKey(c *an.Ctx) {
+	p := c.P
+	eval := p.Eval()
+	n := 0
+	for _, f := range p.Units() {
+		if f.Pkg != p.Jet || f.Body == nil || (!eval[f] && !eval[f.Root()]) {
+			continue
+		}
+		info := f.Info()
+		calls := p.CallsIn(f, "(reflect.Value).MapIndex", "(reflect.Value).SetMapIndex")
+		if len(calls) == 0 {
+			continue
+		}
+		var compCalls []*ast.CallExpr
+		an.InspectOwn(f, func(nd ast.Node) bool {
+			if call, ok := nd.(*ast.CallExpr); ok && an.CalleeName(info, call) == "(reflect.Type).Comparable" {
+				compCalls = append(compCalls, call)
+			}
+			return true
+		})
+		isSite := map[*ast.CallExpr]bool{}
+		for _, cl := range calls {
+			isSite[cl] = true
+		}
+		bad := map[*ast.CallExpr]bool{}
+		seen := map[*ast.CallExpr]bool{}
+		// fromMap: the key is an element of the map's own key set
+		fromMap := func(e ast.Expr) bool {
+			for _, o := range valueOrigins(f, e, 0) {
+				ok := false
+				ast.Inspect(o, func(m ast.Node) bool {
+					if call, isCall := m.(*ast.CallExpr); isCall {
+						switch an.CalleeName(info, call) {
+						case "(reflect.Value).MapKeys", "(*reflect.MapIter).Key", "(reflect.Value).MapRange":
+							ok = true
+						}
+					}
+					return true
+				})
+				if id, isId := an.Unparen(o).(*ast.Ident); isId {
+					// a range variable over MapKeys()
+					an.InspectOwn(f, func(m ast.Node) bool {
+						if rs, isRange := m.(*ast.RangeStmt); isRange {
+							if vid, isV := rs.Value.(*ast.Ident); isV && rs.Value != nil && an.ObjOf(info, vid) == an.ObjOf(info, id) {
+								if call := callOf(rs.X); call != nil && an.CalleeName(info, call) == "(reflect.Value).MapKeys" {
+									ok = true
+								}
+							}
+						}
+						return true
+					})
+				}
+				if !ok {
+					return false
+				}
+			}
+			return true
+		}
+		x := p.NewExplorer(f, an.Hooks{
+			Branch: func(x *an.Explorer, cond ast.Expr, val bool, st *an.State) {
+				for _, cc := range compCalls {
+					// <v>.Type().Comparable()
+					tc := callOf(an.Receiver(cc))
+					if tc == nil || an.CalleeName(info, tc) != "(reflect.Value).Type" {
+						continue
+					}
+					if k, ok := x.Key(an.Receiver(tc)); ok {
+						if t, known := x.Truth(cc, st); known && t {
+							st.Set("hashable:"+k, "1")
+						}
+					}
+				}
+			},
+			PreAssign: func(x *an.Explorer, lhs, rhs ast.Expr, stmt ast.Node, st *an.State) {
+				id, ok := an.Unparen(lhs).(*ast.Ident)
+				if !ok || rhs == nil {
+					return
+				}
+				k, ok := x.Key(id)
+				if !ok {
+					return
+				}
+				// v = v.Convert(t): what was found about v's comparability stays; a conversion to a string-kinded type
+				// makes it hashable
+				if call := callOf(rhs); call != nil && an.CalleeName(info, call) == "(reflect.Value).Convert" {
+					if rk, ok := x.Key(an.Receiver(call)); ok && rk == k {
+						if len(call.Args) == 1 && strings.Contains(strings.ToLower(an.Str(call.Args[0])), "string") {
+							st.Set("hashable:"+k, "1")
+						}
+						return
+					}
+				}
+				// reflect.ValueOf(s) / reflect.ValueOf(&s).Elem() of a value whose static type is a basic one (a name)
+				if basicValueOf(info, rhs) {
+					st.Set("hashable:"+k, "1")
+					return
+				}
+				st.Set("hashable:"+k, "")
+			},
+			Call: func(x *an.Explorer, call *ast.CallExpr, st *an.State) {
+				if !isSite[call] || len(call.Args) < 1 {
+					return
+				}
+				seen[call] = true
+				key := call.Args[0]
+				if fromMap(key) {
+					return
+				}
+				if k, ok := x.Key(key); ok && st.Get("hashable:"+k) != "" {
+					return
+				}
+				bad[call] = true
+			},
+		})
+		x.Run(nil)
+		c.States += x.Visited
+		c.FnsAnalysed[f.Name] = true
+		for i, call := range calls {
+			n++
+			key := f.Name + "/hashable-key"
+			if i > 0 {
+				key += "#" + itoa(i+1)
+			}
+			switch {
+			case x.Undecided != "":
+				c.Undecided("C12.panicval", key, call.Pos(), "%s", x.Undecided)
+			case bad[call]:
+				c.Bad("C12.panicval", key, call.Pos(), nil, "%s hands %s to %s without it being known to be of a comparable type: for a map keyed by an interface type a slice, map or function value makes the hash panic (\"hash of unhashable type\"), which Execute re-panics", f.Name, an.Str(call.Args[0]), an.Str(call.Fun))
+			default:
+				c.OK("C12.panicval", key, call.Pos(), "the key comes out of the map itself, is a string, or is known to be of a comparable type")
+			}
+		}
+	}
+	c.Expect("C12.panicval", "map lookups and stores through reflection in the evaluator", n, 3)
+}
+
+// basicValueOf: e is reflect.ValueOf(x) or reflect.ValueOf(&x).Elem() with x of a basic (comparable) static type.
+func basicValueOf(info *types.Info, e ast.Expr) bool {
+	call := callOf(e)
+	if call == nil {
+		return false
+	}
+	if an.CalleeName(info, call) == "(reflect.Value).Elem" {
+		call = callOf(an.Receiver(call))
+		if call == nil {
+			return false
+		}
+	}
+	if an.CalleeName(info, call) != "reflect.ValueOf" || len(call.Args) != 1 {
+		return false
+	}
+	arg := an.Unparen(call.Args[0])
+	if u, ok := arg.(*ast.UnaryExpr); ok && u.Op == token.AND {
+		arg = an.Unparen(u.X)
+	}
+	tv, ok := info.Types[arg]
+	if !ok || tv.Type == nil {
+		return false
+	}
+	_, isBasic := tv.Type.Underlying().(*types.Basic)
+	return isBasic
+}
